@@ -63,6 +63,11 @@ Qed.
 Definition bgq (q : Z) : bool := getz pix q =? 0.
 Definition cnt0 (bl : zmap Z) : nat := length (filter (fun q => bgq q && (getz bl q =? 0)) (zseq 0 npix)).
 
+(* s is reachable from p through background pixels *)
+Inductive Path (p : Z) : Z -> Prop :=
+| Path_refl : Path p p
+| Path_step q s : Path p q -> In s (nbrs4 H W q) -> bgq s = true -> Path p s.
+
 Lemma cnt0_set bl q lbl : 0 <= q < H * W -> bgq q = true -> getz bl q = 0 -> lbl <> 0 ->
   S (cnt0 (zset bl q lbl)) = cnt0 bl.
 Proof.
@@ -124,7 +129,8 @@ Qed.
 (* the labelling before a flood: every labelled pixel's background neighbours carry the same label *)
 Record Good (bl : zmap Z) (cnt : Z) : Prop := {
   g_lab : forall q, getz bl q <> 0 -> 0 <= q < H * W /\ bgq q = true /\ 1 <= getz bl q <= cnt;
-  g_closed : forall q q', getz bl q <> 0 -> In q' (nbrs4 H W q) -> bgq q' = true -> getz bl q' = getz bl q
+  g_closed : forall q q', getz bl q <> 0 -> In q' (nbrs4 H W q) -> bgq q' = true -> getz bl q' = getz bl q;
+  g_seed : forall l, 1 <= l <= cnt -> exists sd, 0 <= sd < H * W /\ bgq sd = true /\ forall q, getz bl q = l -> Path sd q
 }.
 
 Section Flood.
@@ -133,12 +139,14 @@ Variable cnt : Z.
 Hypothesis G0 : Good bl0 cnt.
 Let lbl := cnt + 1.
 Hypothesis Hcnt : 0 <= cnt.
+Variable seed : Z.
 
 Record FInv (stack : list Z) (bl : zmap Z) : Prop := {
   f_old : forall q, getz bl0 q <> 0 -> getz bl q = getz bl0 q;
   f_new : forall q, getz bl q <> 0 -> getz bl0 q <> 0 \/ (getz bl q = lbl /\ 0 <= q < H * W /\ bgq q = true);
   f_stack : forall q, In q stack -> getz bl q = lbl;
-  f_closed : forall q, getz bl q = lbl -> ~ In q stack -> forall q', In q' (nbrs4 H W q) -> bgq q' = true -> getz bl q' = lbl
+  f_closed : forall q, getz bl q = lbl -> ~ In q stack -> forall q', In q' (nbrs4 H W q) -> bgq q' = true -> getz bl q' = lbl;
+  f_path : forall q, getz bl q = lbl -> Path seed q
 }.
 
 Lemma lbl_range bl stack q : FInv stack bl -> getz bl q = lbl -> 0 <= q < H * W /\ bgq q = true /\ getz bl0 q = 0.
@@ -189,6 +197,10 @@ Proof.
           + apply IH; auto. }
       assert (Nst0 : ~ In q (p :: t)) by (intros [X|X]; [congruence|apply Nst, V3, X]).
       pose proof (f_closed _ _ I q Lq0 Nst0 q' Hq' Bq') as E. rewrite V1; [exact E|rewrite E; exact Nl].
+  - intros q Lq. destruct (Z.eq_dec (getz bl q) 0) as [Z0|NZ].
+    + assert (Nq : getz (snd r) q <> 0) by lia. destruct (V2 q Nq) as [X|[_ [X2 X3]]]; [contradiction|].
+      apply (Path_step seed p q); [apply (f_path _ _ I); exact Lp|exact X2|exact X3].
+    + apply (f_path _ _ I). rewrite <- (V1 q NZ). exact Lq.
 Qed.
 
 Lemma flood_spec fuel : forall stack bl, FInv stack bl -> (cnt0 bl + length stack <= fuel)%nat ->
@@ -211,26 +223,33 @@ Lemma start_flood bl cnt p : Good bl cnt -> 0 <= cnt -> 0 <= p < H * W -> bgq p 
   Good bl' (cnt + 1) /\ (forall q, getz bl q <> 0 -> getz bl' q <> 0) /\ getz bl' p <> 0.
 Proof.
   intros G Hc Hp Bp Zp.
-  assert (I0 : FInv bl cnt [p] (zset bl p (cnt + 1))).
+  assert (I0 : FInv bl cnt p [p] (zset bl p (cnt + 1))).
   { constructor.
     - intros q Nq. apply getz_set_other. intros ->. congruence.
     - intros q Nq. destruct (Z.eq_dec q p) as [->|N]; [right; rewrite getz_set_same; auto|left; rewrite getz_set_other in Nq; auto].
     - intros q [<-|[]]. apply getz_set_same.
     - intros q Lq Nst q' _ _. exfalso. apply Nst. left. destruct (Z.eq_dec q p) as [->|N]; [reflexivity|].
+      rewrite getz_set_other in Lq by auto. destruct (g_lab _ _ G q ltac:(lia)) as [_ [_ R]]. lia.
+    - intros q Lq. destruct (Z.eq_dec q p) as [->|N]; [constructor|].
       rewrite getz_set_other in Lq by auto. destruct (g_lab _ _ G q ltac:(lia)) as [_ [_ R]]. lia. }
   assert (Fuel : (cnt0 (zset bl p (cnt + 1)%Z) + length [p] <= S npix)%nat).
   { pose proof (cnt0_le (zset bl p (cnt + 1))). cbn [length]. lia. }
-  pose proof (flood_spec bl cnt G Hc (S npix) [p] _ I0 Fuel) as I. cbv zeta.
+  pose proof (flood_spec bl cnt G Hc p (S npix) [p] _ I0 Fuel) as I. cbv zeta.
   set (bl' := flood (S npix) H W pix (cnt + 1) [p] (zset bl p (cnt + 1))) in *.
   split; [constructor|split].
-  - intros q Nq. destruct (f_new _ _ _ _ I q Nq) as [Old|[L [R B]]].
-    + rewrite (f_old _ _ _ _ I q Old). destruct (g_lab _ _ G q Old) as [A [B C]]. repeat split; auto; lia.
+  - intros q Nq. destruct (f_new _ _ _ _ _ I q Nq) as [Old|[L [R B]]].
+    + rewrite (f_old _ _ _ _ _ I q Old). destruct (g_lab _ _ G q Old) as [A [B C]]. repeat split; auto; lia.
     + repeat split; auto; lia.
-  - intros q q' Nq Hq' Bq'. destruct (f_new _ _ _ _ I q Nq) as [Old|[L [R B]]].
-    + rewrite (f_old _ _ _ _ I q Old). pose proof (g_closed _ _ G q q' Old Hq' Bq') as E.
-      rewrite (f_old _ _ _ _ I q'); [exact E|rewrite E; exact Old].
-    + rewrite L. apply (f_closed _ _ _ _ I q L); auto.
-  - intros q Nq. rewrite (f_old _ _ _ _ I q Nq). exact Nq.
+  - intros q q' Nq Hq' Bq'. destruct (f_new _ _ _ _ _ I q Nq) as [Old|[L [R B]]].
+    + rewrite (f_old _ _ _ _ _ I q Old). pose proof (g_closed _ _ G q q' Old Hq' Bq') as E.
+      rewrite (f_old _ _ _ _ _ I q'); [exact E|rewrite E; exact Old].
+    + rewrite L. apply (f_closed _ _ _ _ _ I q L); auto.
+  - intros l Hl. destruct (Z.eq_dec l (cnt + 1)) as [->|Nl].
+    + exists p. split; [exact Hp|]. split; [exact Bp|]. intros q Lq. apply (f_path _ _ _ _ _ I). exact Lq.
+    + destruct (g_seed _ _ G l ltac:(lia)) as [sd [Rs [Bs Ps]]]. exists sd. split; [exact Rs|]. split; [exact Bs|].
+      intros q Lq. apply Ps. destruct (f_new _ _ _ _ _ I q ltac:(lia)) as [Old|[L _]]; [|lia].
+      rewrite <- (f_old _ _ _ _ _ I q Old). exact Lq.
+  - intros q Nq. rewrite (f_old _ _ _ _ _ I q Nq). exact Nq.
   - assert (E : getz bl' p = cnt + 1); [|lia].
     destruct (Z.eq_dec (getz bl' p) (cnt + 1)) as [|N]; [auto|]. exfalso.
     (* p keeps its label: labels are only written where they are 0 *)
@@ -252,7 +271,7 @@ Lemma label4_inv k : (k <= npix)%nat ->
   Good (fst r) (snd r) /\ 0 <= snd r /\ forall q, 0 <= q < Z.of_nat k -> bgq q = true -> getz (fst r) q <> 0.
 Proof.
   induction k as [|k IH]; intros Hk.
-  - cbn [zseq fold_left fst snd]. split; [constructor; intros q; rewrite getz_empty; intros; congruence|]. split; [lia|intros; lia].
+  - cbn [zseq fold_left fst snd]. split; [constructor; [intros q; rewrite getz_empty; intros; congruence|intros q q'; rewrite getz_empty; intros; congruence|intros l Hl; lia]|]. split; [lia|intros; lia].
   - assert (E : zseq 0 (S k) = zseq 0 k ++ [Z.of_nat k]) by (rewrite zseq_snoc; reflexivity).
     rewrite E, fold_left_app. cbn [fold_left]. destruct (IH ltac:(lia)) as [G [Hc Hl]].
     set (r := fold_left _ (zseq 0 k) (zempty, 0)) in *. fold (bgq (Z.of_nat k)).
@@ -264,6 +283,19 @@ Proof.
     + split; [exact G|]. split; [exact Hc|]. intros q Hq Bq.
       destruct (Z.eq_dec q (Z.of_nat k)) as [->|N]; [|apply Hl; [lia|exact Bq]].
       rewrite Bq in C. cbn [andb] in C. apply Z.eqb_neq in C. exact C.
+Qed.
+
+Lemma path_range sd q : 0 <= sd < H * W -> Path sd q -> 0 <= q < H * W.
+Proof. intros Hs P. induction P as [|q s P IH Hin B]; [exact Hs|]. apply (nbrs4_range q s IH Hin). Qed.
+
+Lemma nbrs4_adj4 q s : 0 <= q < H * W -> In s (nbrs4 H W q) -> adj4 H W q s.
+Proof.
+  intros Hq Hin. destruct (rc_of q Hq) as [r [c [-> [Hr Hc]]]]. apply (nbrs4_rc r c s Hr Hc) in Hin.
+  destruct Hin as [[A ->]|[[A ->]|[[A ->]|[A ->]]]].
+  - exists (r - 1), c. left. split; [lia|]. split; [lia|]. right. split; [reflexivity|ring].
+  - exists r, c. left. split; [lia|]. split; [lia|]. left. split; reflexivity.
+  - exists r, (c - 1). right. split; [lia|]. split; [lia|]. right. split; [reflexivity|ring].
+  - exists r, c. right. split; [lia|]. split; [lia|]. left. split; [reflexivity|ring].
 Qed.
 
 End Label.
@@ -304,4 +336,58 @@ Theorem fill_self_correct rows : rect_nonneg rows ->
       paint_ok (img_edges rows (fst own)) (img_border rows (fst own)) (img_lcount rows) (getz (img_regions rows (fst own)) p) (g p).
 Proof.
   intros Hr own. apply (fill_labeled_holes_correct_img rows (fst own) (snd own) Hr). apply label4_valid. exact Hr.
+Qed.
+
+(* ---------------------------------------------------------------- the other half: one number per component *)
+Lemma adj4_sym H W p q : adj4 H W p q -> adj4 H W q p.
+Proof.
+  intros [r [c [[Hr [Hc [[A B]|[A B]]]]|[Hr [Hc [[A B]|[A B]]]]]]]; exists r, c; [left|left|right|right];
+    (split; [exact Hr|]); (split; [exact Hc|]); [right|left|right|left]; split; assumption.
+Qed.
+
+Lemma bgpath_trans rows a b c : BgPath rows a b -> BgPath rows b c -> BgPath rows a c.
+Proof. intros P Q. induction Q as [|q s Q IH A B]; [exact P|]. apply (BgPath_step rows a q s IH A B). Qed.
+
+Lemma bgpath_bg rows a b : BgPath rows a b -> pixv rows a = 0 -> pixv rows b = 0.
+Proof. intros P Ha. destruct P; auto. Qed.
+
+Lemma bgpath_rev rows a b : BgPath rows a b -> pixv rows a = 0 -> BgPath rows b a.
+Proof.
+  intros P Ha. induction P as [|q s P IH A B]; [constructor|].
+  apply (bgpath_trans rows s q a); [|exact IH].
+  apply (BgPath_step rows s s q); [constructor|apply adj4_sym; exact A|apply (bgpath_bg rows a q P Ha)].
+Qed.
+
+Theorem label4_separate rows : rect_nonneg rows ->
+  let own := label4 (Z.of_nat (length rows)) (Z.of_nat (length (hd [] rows))) (zload (concat rows) 0 zempty) (length (concat rows)) in
+  components_separate rows (fst own).
+Proof.
+  intros [Hr [Hnn [Hw Hh]]] own.
+  set (H := Z.of_nat (length rows)) in *. set (W := Z.of_nat (length (hd [] rows))) in *.
+  set (pix := zload (concat rows) 0 zempty) in *. set (npix := length (concat rows)) in *.
+  assert (HW : 0 < W) by (unfold W; lia). assert (HH : 0 < H) by (unfold H; lia).
+  assert (Hn : Z.of_nat npix = H * W) by (unfold npix, H, W; rewrite (concat_length_rect rows _ Hr); lia).
+  destruct (label4_inv H W pix npix HW HH Hn npix (le_n _)) as [G [Hc Hl]]. cbv zeta in G, Hc, Hl.
+  change (fold_left _ (zseq 0 npix) (zempty, 0)) with own in G, Hc, Hl.
+  assert (Conv : forall sd q, 0 <= sd < H * W -> Path H W pix sd q -> BgPath rows sd q).
+  { intros sd q Hs P. induction P as [|q s P IH Hin B]; [constructor|].
+    apply (BgPath_step rows sd q s IH).
+    - fold H W. eapply nbrs4_adj4; try eassumption. eapply path_range; eassumption.
+    - unfold pixv. fold pix. unfold bgq in B. lia. }
+  intros p q Hp Hq E N.
+  destruct (g_lab _ _ _ _ _ G p N) as [_ [_ R]].
+  destruct (g_seed _ _ _ _ _ G (getz (fst own) p) R) as [sd [Rs [Bs Ps]]].
+  pose proof (Conv sd p Rs (Ps p eq_refl)) as P1. pose proof (Conv sd q Rs (Ps q (eq_sym E))) as P2.
+  apply (bgpath_trans rows p sd q); [|exact P2]. apply bgpath_rev; [exact P1|]. unfold pixv. fold pix. unfold bgq in Bs. lia.
+Qed.
+
+(* binary images, no hypothesis left: the model with its own labelling is ordinary hole filling *)
+Theorem binary_agrees_with_fill_self rows :
+  rect_nonneg rows -> Forall (fun v => v = 0 \/ v = 1) (concat rows) ->
+  exists g, f_out (fill_self rows) = grid_of (length rows) (length (hd [] rows)) g /\
+    forall p, 0 <= p < Z.of_nat (length (concat rows)) -> (g p <> 0 <-> (pixv rows p <> 0 \/ ~ Outside rows p)).
+Proof.
+  intros Hr Hb. unfold fill_self. cbv zeta.
+  set (own := label4 (Z.of_nat (length rows)) (Z.of_nat (length (hd [] rows))) (zload (concat rows) 0 zempty) (length (concat rows))).
+  apply (binary_agrees_with_fill rows (fst own) (snd own) Hr (label4_valid rows Hr) (label4_separate rows Hr) Hb).
 Qed.
